@@ -778,6 +778,14 @@ class Sample(Contract):
         it = to_int(env["iterations"])
         for nm in SERIES:
             p.prove(list_len(h.f[nm]) == it, f"{q}:C18:len(history.{nm}) == iterations at return")
+        enlarged = any(x[0] == "resample" and not isinstance(x[3], NoneV) for x in p.events)
+        p.prove(list_len(h.f["mcmc_acceptance"]) == it,
+                f"{q}:C18:len(history.mcmc_acceptance) == iterations at return" + (" [after final enlargement]" if enlarged else " [no final enlargement]"))
+        if enlarged:
+            # C08: the enlargement leaves the evidence series untouched (sum identity above is over the same lists)
+            enl = [x for x in p.events if x[0] == "resample" and not isinstance(x[3], NoneV)]
+            p.prove(z3.And(to_real(enl[-1][2]) == 1, to_int(enl[-1][3]) == g["n_final"]), f"{q}:C08:enlargement resamples at temperature 1 to n_final_samples")
+            p.prove(z3.BoolVal(enl[-1][4] is s.f["rng"]), f"{q}:C20:enlargement uses the sampler's generator")
         beta = to_real(env["beta"])
         goal = to_real(fin.f["beta"]) == 1
         if sh["max_n_steps"]:
